@@ -68,6 +68,18 @@ def make(kind, st):
             st["runs"] += 1
             raise VErr(7)
         return g.asynq()
+    if kind == "task_susp":
+        from asynq.batching import DebugBatchItem
+
+        @asynq.asynq()
+        def h():
+            st["runs"] += 1
+            try:
+                yield DebugBatchItem("c10-susp", 1)
+            except GeneratorExit:
+                raise RuntimeError("cleanup of the suspended generator failed")
+            return 5
+        return h.asynq()
     b = B(st)
     it = It(b)
     st["keep"] = (b, it)
@@ -105,7 +117,11 @@ def run_history(kind, ops):
                 raise RuntimeError("bad subscriber")
         return cb
 
-    for o in ops:
+    def apply_all():
+        for o in ops:
+            apply_one(o)
+
+    def apply_one(o):
         op, arg = o["op"], o["arg"]
         if op in ("value", "call"):
             try:
@@ -150,6 +166,23 @@ def run_history(kind, ops):
         else:
             r = ["?"]
         got.append(r)
+
+    if kind == "task_susp":
+        # the operations are applied by a sibling task while the object under test is suspended on its batch item
+        @asynq.asynq()
+        def driver():
+            apply_all()
+
+        @asynq.asynq()
+        def root():
+            try:
+                yield obj, driver.asynq()
+            except Exception:
+                pass
+
+        root()
+    else:
+        apply_all()
     return got, st["runs"]
 
 
